@@ -5,5 +5,6 @@ CONSTANTS
   MaxRpc = 1
   InLock = FALSE
   MaxWedged = 1
+  AllowReset = TRUE
 INVARIANTS UnavailOnlyIfEmpty
 CHECK_DEADLOCK FALSE
